@@ -873,7 +873,7 @@ func init() {
 		Rule: "phase 0 (exhaustive): each of the 48 (owner kind x time x target) registrations singly x 12 representative table shapes (header none/0/1/2/3 cells set before or after the rows; rows of 0-3 cells built by AddRowItems, NewRow+Add+AddRow or AppendNewRow+Add; separators) x {registered as soon as the owner exists, registered after the build} x 3 owner instances, followed by an InvokeRenderCallbacks pass and one renderer pass; " +
 			"phase 1 (exhaustive): out-of-range times/targets and a foreign owner type on every owner; phase 2: random sets of 1-12 registrations on random shapes with 1-3 passes through random triggers; phase 3 (thorough, exhaustive): all 48x48 pairs on 3 shapes. " +
 			"Every add operation and every render pass is one window: mandatory events exactly once, every event at most once per (registration,target), allowed targets only, add/render time matching the window, documented nesting order, and read-back through the table of a property set inside the callback. " +
-			"phase 4: a cell value that already carries 0-4 registrations is added at 1-3 places (separate rows or twice in one row), live cells get further registrations, live cells are copied by value and added again, the caller's variable gets registrations after the fact; a registration made on a live cell must fire exactly once per pass on that cell, and no callback may fire on a cell that neither received it nor is a by-value copy of a carrier. " +
+			"phase 4: a cell value that already carries 0-4 registrations is added at 1-3 places (separate rows or twice in one row), live cells get further registrations, live cells are copied by value and added again, the caller's variable gets registrations after the fact; a registration must fire exactly once per pass on the live cell it was made on and on every by-value copy of a carrier (a cell value registered before it was added carries its callbacks), and never on any other cell. " +
 			"Distinct = distinct (shape, registration multiset, triggers) resp. distinct copy histories; all cases are non-trivial.",
 		Assumptions: []string{
 			"events the statement does not list (cell callbacks registered on column 0, column-level cell callbacks on header cells, add-time callbacks at AddHeaders, table/column cell add-time callbacks for cells added to an already attached row, row-itself callbacks at add time, registrations with no documented firing point) are only checked for at-most-once, allowed target and liveness",
@@ -883,9 +883,9 @@ func init() {
 		Phases: []Phase{
 			{Name: "48 single registrations x 12 shapes x early/late x 3 owner instances", Exhaustive: true, N: Fixed(48*12*2*3, 48*12*2*3), Run: c13Singles},
 			{Name: "refusal of out-of-range times/targets and foreign owner types on 5 owners", Exhaustive: true, N: Fixed(5, 5), Run: c13Refusals},
-			{Name: "random registration sets on random shapes", N: Fixed(4000, 500000), Run: c13Random},
+			{Name: "random registration sets on random shapes", N: Fixed(4000, 2000000), Run: c13Random},
 			{Name: "all 48x48 registration pairs x 3 shapes (thorough only)", Exhaustive: true, N: Fixed(0, 48*48*3), Run: c13Pairs},
-			{Name: "cells carrying callbacks added at several places and copied by value", N: Fixed(2000, 200000), Run: c13Copies},
+			{Name: "cells carrying callbacks added at several places and copied by value", N: Fixed(2000, 1000000), Run: c13Copies},
 		},
 	})
 }
@@ -1067,13 +1067,23 @@ func c13Copies(c *Ctx, i int, r *gen.R) {
 			}
 		}
 		for _, g := range regs {
-			if g.home == "" {
-				continue
+			// a registration fires on the live cell it was made on and on every cell that is a by-value
+			// copy of a carrier (a cell value registered before it was added carries its callbacks with it)
+			carriers := make([]string, 0, len(g.carried))
+			for id := range g.carried {
+				carriers = append(carriers, id)
 			}
-			c.Rec.Count("mandatory_events_expected", 1)
-			if n := count[fmt.Sprintf("%d|%s", g.id, g.home)]; n != 1 {
-				c.Rec.Violate("missing:cell-copy-scenario", fmt.Sprintf("callback %s fired %d times on its own cell in this pass; exactly once is required", g.desc, n), desc)
-				return
+			sort.Strings(carriers)
+			for _, id := range carriers {
+				c.Rec.Count("mandatory_events_expected", 1)
+				if n := count[fmt.Sprintf("%d|%s", g.id, id)]; n != 1 {
+					kind := "missing:cell-copy-scenario"
+					if g.home == "" {
+						kind = "missing:callback-registered-on-cell-value-before-it-was-added"
+					}
+					c.Rec.Violate(kind, fmt.Sprintf("callback %s fired %d times on cell (%s) in this pass; exactly once is required", g.desc, n, id), desc)
+					return
+				}
 			}
 		}
 	}
